@@ -303,7 +303,7 @@ func vc09ExpectNext(fail func(string, ...any), next *vc09Next, rw *vc09RW, gotEr
 func TestVerifC09MiddlewareBackoff(t *testing.T) {
 	st := vstat.New("C09", "ratelimit.middleware.backoff",
 		"rapid histories of queries (client address, qtype, protocol, response size of the wrapped handler) through ratelimit.Middleware with a real Backoff (1h intervals); oracle = per-subnet counter model on what the client observes; non-trivial = a query got no response and a later one did, distinct by (config, history)",
-		"silence-then-later-response", "dropped", "large-response-counted", "request-weighs-more-than-response", "allowlisted-pass", "any-refused", "proto-not-limited")
+		"silence-then-later-response", "dropped", "large-response-counted", "request-weighs-more-than-response", "client-ipv4-mapped", "allowlisted-pass", "any-refused", "proto-not-limited")
 	st.Finish(t)
 
 	rapid.Check(t, func(t *rapid.T) {
@@ -327,7 +327,15 @@ func TestVerifC09MiddlewareBackoff(t *testing.T) {
 			qt := vc09DrawQType(t)
 			proto := rapid.SampledFrom([]dnsserver.Protocol{dnsserver.ProtoDNS, dnsserver.ProtoDNS, dnsserver.ProtoDNS, dnsserver.ProtoDoT}).Draw(t, "proto")
 			next := &vc09Next{respSize: vc09DrawRespSize(t, c.Est)}
-			rw := &vc09RW{local: &net.UDPAddr{IP: net.IP{127, 0, 0, 1}, Port: 53}, remote: vc09Remote(ip, 5353, rapid.IntRange(0, 3).Draw(t, "form"))}
+			form := rapid.IntRange(0, 3).Draw(t, "form")
+			rw := &vc09RW{local: &net.UDPAddr{IP: net.IP{127, 0, 0, 1}, Port: 53}, remote: vc09Remote(ip, 5353, form)}
+			if form&1 == 1 && ip.Is4() && proto == dnsserver.ProtoDNS {
+				// The remote address is ::ffff:a.b.c.d, as a dual-stack socket
+				// reports it; the middleware unmaps it, so it is the same IPv4
+				// client as in plain form, with the same window.
+				classes["client-ipv4-mapped"] = true
+			}
+
 			ctx := dnsserver.ContextWithServerInfo(context.Background(), &dnsserver.ServerInfo{Name: "c09", Addr: "127.0.0.1:53", Proto: proto})
 			req := vc09ReqPadded(qt, rapid.SampledFrom([]int{0, 0, 0, int(c.Est), 3 * int(c.Est)}).Draw(t, "reqPad"))
 			err := mw.Wrap(next).ServeDNS(ctx, rw, req)
